@@ -313,8 +313,9 @@ def c11_consume(ctx):
 
 def c11_values(ctx):
     """Listed values "may be arbitrary expressions": they get their value from the expression parser only (C07.6)."""
-    from rules.c07 import c07_who
+    from rules.c07 import c07_who, c07_5
     c07_who(ctx)
+    c07_5(ctx)
 
 
 def c11_state(ctx):
@@ -327,9 +328,10 @@ def c11_path(ctx):
     """The bytes a directive describes reach the image only if the source line reaches the factory as written (C18.3: only leading and
     trailing blanks are dropped) and every unmuted line's bytes are put into the image map (C03.1)."""
     from rules.c18 import c18_3
-    from rules.c03 import c03_1
+    from rules.c03 import c03_1, c03_3
     c18_3(ctx)
     c03_1(ctx)
+    c03_3(ctx)
 
 def c11_symbols(ctx):
     """A string or value written through a preprocessor symbol is the symbol's text, character for character (C09.1: literal replacement)."""
